@@ -32,7 +32,10 @@ HOSTILE = ['"abc', "'", '"""', "(", ")", "[", "]", "1...", "...", "…", "--1", 
            "b'a'", "\udc80", "a{99999999999999}", "hex", "rot13", "base64", "idna", "color < 100 // (count - 2)",
            "id < (5, 4)[count]", "id < 10 ** (10 ** count)", "id.x > 1", "1 if count else x",
            # str.isdigit() is true for all of these, int() takes only some of them; more digits than int() converts
-           "\u00b2", "7\u00b3", "\u2460", "\u0663\u0664", "9" * 4301]
+           "\u00b2", "7\u00b3", "\u2460", "\u0663\u0664", "9" * 4301,
+           # multi-byte encodings the stored bytes do not fit; a date layout naming a part twice; a rule continued on
+           # a second line
+           "utf-16", "utf-32", "DD.DD", "hh:hh", "\\\nid < 3"]
 RULE_TEXT = (
     "fault enumeration: sweep of (base CID or data table, row, column, hostile value) single-cell replacements (see "
     "sweep_note) plus seeded scenarios with two hostile cells at once or one container fault (truncate / bitflip / "
